@@ -68,6 +68,7 @@ class _Walker:
         self.fn = fn
         self.out: List[Site] = []
         self.i = 0
+        self._flag_true = {}
 
     def gatoms(self, test: ast.AST, pol: bool):
         """atoms(test, pol) plus, for an atom that is a function-local boolean defined once (`emit = flag and a == b`;
@@ -81,7 +82,53 @@ class _Walker:
                     for a in atoms(d, p_):
                         if not (isinstance(a[0], ast.Name) and a[0].id == e.id):
                             out.append(a)
+                elif p_ and e.id in self._flag_locals():
+                    # a flag local (`emit = False ... if a: if b: emit = True ... if emit:`): it is truthy only if the single
+                    # `= True` assignment ran, i.e. the guards of that assignment held when the decision was taken
+                    gs = self._flag_true.get(e.id, [])
+                    if len(gs) == 1:
+                        for a in gs[0]:
+                            if a not in out:
+                                out.append(a)
         return out
+
+    def _flag_locals(self):
+        """Function-locals whose every assignment is a constant and exactly one of them is `True` (the rest False / None)."""
+        if not hasattr(self, "_flags"):
+            vals = {}
+            bad = set(getattr(self.fn, "params", []))
+            try:
+                nodes = list(self.fn.direct_nodes())
+            except Exception:  # noqa: BLE001
+                nodes = []
+            for n in nodes:
+                if isinstance(n, (ast.Nonlocal, ast.Global)):
+                    bad |= set(n.names)
+                tgs = []
+                if isinstance(n, ast.Assign):
+                    tgs = [(t, n.value) for t in n.targets]
+                elif isinstance(n, ast.AnnAssign) and n.value is not None:
+                    tgs = [(n.target, n.value)]
+                elif isinstance(n, (ast.AugAssign, ast.NamedExpr, ast.For, ast.comprehension)):
+                    for x in ast.walk(n.target):
+                        if isinstance(x, ast.Name):
+                            bad.add(x.id)
+                elif isinstance(n, ast.withitem) and n.optional_vars is not None:
+                    for x in ast.walk(n.optional_vars):
+                        if isinstance(x, ast.Name):
+                            bad.add(x.id)
+                for t, v in tgs:
+                    if isinstance(t, ast.Name):
+                        if isinstance(v, ast.Constant) and (v.value is True or v.value is False or v.value is None):
+                            vals.setdefault(t.id, []).append(v.value)
+                        else:
+                            bad.add(t.id)
+                    else:
+                        for x in ast.walk(t):
+                            if isinstance(x, ast.Name) and isinstance(x.ctx, ast.Store):
+                                bad.add(x.id)
+            self._flags = {k for k, vs in vals.items() if k not in bad and vs.count(True) == 1}
+        return self._flags
 
     def _local_def(self, name: str):
         if not hasattr(self, "_defs"):
@@ -195,6 +242,10 @@ class _Walker:
                     self.expr(d, st, ctx)
             return ()
         self.emit(st, st, ctx)
+        if isinstance(st, (ast.Assign, ast.AnnAssign)) and isinstance(getattr(st, "value", None), ast.Constant) and st.value.value is True:
+            for t in (st.targets if isinstance(st, ast.Assign) else [st.target]):
+                if isinstance(t, ast.Name):
+                    self._flag_true.setdefault(t.id, []).append(tuple(ctx.guards))
         if isinstance(st, ast.If):
             self.expr(st.test, st, ctx)
             self.block(st.body, ctx.with_(guards=ctx.guards + tuple(self.gatoms(st.test, True)),
